@@ -472,8 +472,8 @@ func (e *Engine) setupAtomic() {
 			e.yield()
 			p := a[0]
 			e.hbAcquire(p)
-			v := Add(e.load(p).(*Term), a[1].(*Term))
-			e.store(p, v)
+			v := Add(e.atomicLoad(p).(*Term), a[1].(*Term))
+			e.atomicStore(p, v)
 			e.hbRelease(p)
 			return v
 		}
@@ -702,8 +702,23 @@ func (e *Engine) setupAtomic() {
 	}
 }
 
-func (e *Engine) atomicLoad(p value) value { return e.load(p) }
-func (e *Engine) atomicStore(p, v value)   { e.store(p, v) }
+// atomic accesses are synchronisation operations, not plain memory accesses:
+// they bypass the race monitor's access log.
+func (e *Engine) atomicLoad(p value) value {
+	pp, ok := p.(*value)
+	if !ok || pp == nil {
+		e.rtPanic("nil pointer dereference")
+	}
+	return copyVal(*pp)
+}
+
+func (e *Engine) atomicStore(p, v value) {
+	pp, ok := p.(*value)
+	if !ok || pp == nil {
+		e.rtPanic("nil pointer dereference")
+	}
+	assignInPlace(pp, v)
+}
 
 // smLookup: sync.Map lookup by interface key.
 func (e *Engine) smLookup(m *mapV, k value) (value, *Term, int) {
